@@ -38,6 +38,10 @@ def main():
     ap.add_argument("--out", required=True)
     a = ap.parse_args()
     out = {"obs": {}, "special": {}, "sim": {}}
+    # simulated time has left zero and stands still during the sweeps (a reading depends on the voltage, not on the clock)
+    import hal.simulation as hs
+    hs.pauseTiming()
+    hs.stepTiming(1234567)
     for name, (cls, simcls) in MODELS.items():
         if cls is None:      # the public name is gone
             out["obs"][name] = [-1] * 4096
@@ -48,6 +52,8 @@ def main():
         sim = AnalogInputSim(s.distance)
         obs = []
         for k in range(4096):
+            if k % 1024 == 700:
+                hs.stepTiming(20000)
             if k % 512 == 0:
                 # the reading is a function of the channel voltage alone: the supply rails of the (simulated) roboRIO
                 # wander while the codes are swept
